@@ -12,7 +12,7 @@ from .lib import (Out, Proxy, ProtoError, TcpOrigin, addr_v5, base_cfg, client_s
 B_CLOSE = 3.0
 USER, PASS = "alice", "s3cret"
 
-BEHAVIOURS = ["ok", "delay", "refuse", "refuseverbose", "garbage", "closebefore", "closeafter", "partial"]
+BEHAVIOURS = ["ok", "delay", "refuse", "refuseverbose", "garbage", "closebefore", "closeafter", "resetafter", "partial"]
 
 
 class FakeUpstreams:
@@ -66,6 +66,12 @@ class FakeUpstreams:
         await w.drain()
         self.log(proto, host, "success-sent")
         if beh == "closeafter":
+            return
+        if beh == "resetafter":
+            # granted, then the upstream connection is reset at once (whatever the client pipelined can not be forwarded any more)
+            import socket as _s
+            w.get_extra_info("socket").setsockopt(_s.SOL_SOCKET, _s.SO_LINGER, struct.pack("ii", 1, 0))
+            w.transport.abort()
             return
         await echo_handler(r, w, None, None)
 
@@ -200,9 +206,11 @@ async def one(out, env, proto, outcome, host, port, uid, extra=None):
         else:
             cmd = (extra or {}).get("cmd", 1)
             c.write(bytes([4, cmd]) + struct.pack(">H", port) + b"\0\0\0\x01" + b"me\0" + host.encode() + b"\0")
+        if outcome in ("upstream-closeafter", "upstream-resetafter") and proto != "socks5auth":
+            c.write(payload[:500])   # payload pipelined in the same breath as the request
         await c.drain()
         t_sent = now()
-        expect_success = outcome in ("ok", "delay", "upstream-closeafter")
+        expect_success = outcome in ("ok", "delay", "upstream-closeafter", "upstream-resetafter")
         buf = b""
         end = None
         if expect_success:
@@ -224,9 +232,14 @@ async def one(out, env, proto, outcome, host, port, uid, extra=None):
                 except ProtoError:
                     continue
             t_reply = now()
-            if kind != "success":
+            if kind != "success" and outcome == "upstream-resetafter":
+                # the reset may overtake the upstream's reply (a reset discards what the proxy has not read yet): then the proxy
+                # never saw the grant and one failure reply is the truthful answer. Judge it as a failure outcome below.
+                expect_success = False
+            elif kind != "success":
                 out.violation("upstream established but the client is not told so (%s, %s)" % (proto, outcome), {"proto": proto, "outcome": outcome, "received": buf[:120].hex(), "end": end})
                 return
+        if expect_success:
             # success must not precede the upstream's own establishment
             up_t = env["first_upstream_event"](host, port)
             if port == env["direct_port"]:
@@ -245,9 +258,29 @@ async def one(out, env, proto, outcome, host, port, uid, extra=None):
                 out.violation("client told 'established' before the upstream path was (%s, %s)" % (proto, outcome),
                               {"proto": proto, "outcome": outcome, "reply_at_s": round(t_reply - t0, 3), "upstream_established_at_s": None if up_t is None else round(up_t - t0, 3)})
                 return
-            if outcome == "upstream-closeafter":
-                # the upstream granted the tunnel and hung up: success is truthful, the tunnel then just ends
-                out.nontrivial((proto, outcome, "success-then-eof"))
+            if outcome in ("upstream-closeafter", "upstream-resetafter"):
+                # the upstream granted the tunnel and hung up (or was reset): success is truthful, the tunnel then just ends. The
+                # upstream sent nothing after its reply, so every further byte the client gets is the proxy's own: a second reply
+                rest = buf[used:]
+                end2 = "timeout"
+                deadline = now() + B_CLOSE + 2
+                while now() < deadline:
+                    try:
+                        b = await c.read_some(65536, timeout=max(0.05, deadline - now()))
+                    except asyncio.TimeoutError:
+                        break
+                    except (ConnectionError, OSError):
+                        end2 = "rst"
+                        break
+                    if not b:
+                        end2 = "eof"
+                        break
+                    rest += b
+                if rest:
+                    out.violation("a second reply follows the success reply on the same connection (%s, %s)" % (proto, outcome), {"proto": proto, "outcome": outcome, "after_success_hex": rest[:120].hex(), "end": end2})
+                elif end2 == "timeout":
+                    out.violation("connection not closed after the upstream went away (%s, %s)" % (proto, outcome), {"proto": proto, "outcome": outcome})
+                out.nontrivial((proto, outcome, "success-then-" + end2))
                 return
             c.buf = buf[used:] + c.buf
             c.write(payload)
